@@ -1664,6 +1664,24 @@ func runClosure(c *core.Ctx) []core.Obligation {
 				}
 			}
 		}
+		// (f) an iterator (or any other stateful reflect object) the constructor made and the closure
+		// drives through a captured pointer is one iterator for every call
+		if !perCall {
+			for _, ci := range callsIn(fn) {
+				g := staticCallee(ci.Common())
+				if g == nil || g.Signature.Recv() == nil || len(ci.Common().Args) == 0 {
+					continue
+				}
+				if !strings.HasSuffix(g.Signature.Recv().Type().String(), "reflect.MapIter") {
+					continue
+				}
+				if ld, ok := ci.Common().Args[0].(*ssa.UnOp); ok && ld.Op == token.MUL {
+					if fv, isFV := ld.X.(*ssa.FreeVar); isFV {
+						bads = append(bads, fmt.Sprintf("call of %s on the reflect.MapIter that the captured variable %q points to at %s (one iterator shared by every call)", g.Name(), fv.Name(), c.InstrPos(ci)))
+					}
+				}
+			}
+		}
 		// state shared by every call of a codec is also shared by the nested calls of one Marshal or
 		// Unmarshal: a type that reaches itself re-enters the closure while the outer call still
 		// holds the value, so the round trip breaks without any concurrency
